@@ -1378,6 +1378,8 @@ class Frame(object):
     while f is not None:
       if name in f.env: return f.env[name]
       f = f.parent
+    if interp.contract is not None and name in interp.contract.stubs:
+      return interp.contract.stubs[name]       # contract-level stub of a global / builtin
     f = self
     while f is not None:
       if f.func is not None and f.func.module is not None:
